@@ -8,6 +8,7 @@ import AaVerif.Aa.Wire
 import AaVerif.Logs
 import AaVerif.Layout
 import AaVerif.Prep
+import AaVerif.Directive
 import AaVerif.Aa.Resolve
 import AaVerif.Generated.LogRx
 open Proto
@@ -219,12 +220,31 @@ def suitePrepare (f : List String) : String :=
     "ok\t" ++ escList (out.map (fun p => (String.intercalate "/" p.1 ++ "=" ++ p.2).toList)) ++ "\t" ++ b2s (Prep.uniqueBase i.src)
   | _ => "err\tbad-op"
 
+/-- dbusspec <action> <bus> <name> <path|-> <interface|-> <interface+|-> <label> -> the documented rules -/
+def suiteDbusSpec (f : List String) : String :=
+  match f with
+  | [action, bus, name, path, iface, ifp, label] =>
+    let o (x : String) : Option (List Char) := if x == "-" then none else some (unesc x)
+    let a : Directive.DbusArgs := ⟨unesc bus, unesc name, o path, o iface, o ifp, unesc label⟩
+    let rs := if action == "own" then Directive.own a else if action == "talk" then Directive.talk a else Directive.common a
+    "ok\t" ++ Aa.encodeRules (rs.map some)
+  | _ => "err\tbad-op"
+
+/-- stackclean <x> <line;line;...> -/
+def suiteStackClean (f : List String) : String :=
+  match f with
+  | [x, body] => "ok\t" ++ escList (Directive.stackClean (x == "1") (unescList body))
+  | [_] => "ok\t"
+  | _ => "err\tbad-op"
+
 def main (args : List String) : IO Unit := do
   match args with
   | ["builder"] => serve suiteBuilder
   | ["setflags"] => serve suiteSetflags
   | ["filter"] => serve suiteFilter
   | ["layout"] => serve suiteLayout
+  | ["dbusspec"] => serve suiteDbusSpec
+  | ["stackclean"] => serve suiteStackClean
   | ["prepare"] => serve suitePrepare
   | ["resolve"] => serve suiteResolve
   | ["uniq"] => serve suiteUniq
